@@ -553,6 +553,21 @@ let mon_srv prop case impl =
               | Some _ -> bad "accepted-upload-aborted-by-the-server"
               | None -> ())
            | _ -> ())) recs in
+    (* every accepted download yields its own file, also when the endpoint ran other transfers before *)
+    let check_downloads () =
+      List.iter (fun r ->
+        match decoded r with
+        | Some (Rrq (name, _, _)) ->
+          if starts_with r.sxfer "dl=" && r.sxfer <> "dl=-" && not (starts_with r.sxfer "dl=error") then begin
+            (match stat init (join sdir (convert_file_path name)) with
+             | Some (NFile content) ->
+               let body = String.sub r.sxfer 3 (String.length r.sxfer - 3) in
+               let fpr = List.hd (String.split_on_char '/' body) in
+               if fpr <> fp_text content || not (ends_with r.sxfer "/done") then
+                 (if not (List.mem fpr uploads) then bad "transfer-of-a-reused-endpoint-does-not-yield-its-file")
+             | _ -> ())
+          end else if starts_with r.sxfer "dl=error" then bad "accepted-download-aborted-by-the-server"
+        | _ -> ()) recs in
     (match prop with
      | "C03" ->
        (* nothing outside the receive directory changes; only send-directory files (or this run's uploads) are ever served *)
@@ -583,7 +598,9 @@ let mon_srv prop case impl =
           (match String.split_on_char '/' last.sxfer with
            | [f; _; _; _; m; _; d] when f = "dl=" ^ probe && d = "done" && m = exp_mult -> ()
            | _ -> bad "probe-request-not-served-after-the-history")
-        | _ -> ())
+        | _ -> ());
+       (* ... and goes on answering subsequent valid requests correctly, whoever sends them *)
+       check_downloads ()
      | "C06" ->
        let ro = has_flag flags 'r' and over = has_flag flags 'o' in
        let touched = ref false in
@@ -694,20 +711,7 @@ let mon_srv prop case impl =
            end
          | _ -> ()) recs
      | "C12" ->
-       (* every transfer of an endpoint yields its own file, also when the endpoint ran other transfers before *)
-       List.iteri (fun i r ->
-         match decoded r with
-         | Some (Rrq (name, _, _)) when i = 0 || true ->
-           if starts_with r.sxfer "dl=" && r.sxfer <> "dl=-" && not (starts_with r.sxfer "dl=error") then begin
-             (match stat init (join sdir (convert_file_path name)) with
-              | Some (NFile content) ->
-                let body = String.sub r.sxfer 3 (String.length r.sxfer - 3) in
-                let fpr = List.hd (String.split_on_char '/' body) in
-                if fpr <> fp_text content || not (ends_with r.sxfer "/done") then
-                  (if not (List.mem fpr uploads) then bad "transfer-of-a-reused-endpoint-does-not-yield-its-file")
-              | _ -> ())
-           end else if starts_with r.sxfer "dl=error" then bad "accepted-download-aborted-by-the-server"
-         | _ -> ()) recs;
+       check_downloads ();
        check_uploads ()
      | "C13" ->
        let clean = not (has_flag flags 'k') in
@@ -1014,6 +1018,20 @@ let run_bin toks =
     (* C16: exactly N+1 copies of every block, nothing retransmitted on a loss-free link, content intact *)
     let n = int_of_string n and ws = int_of_string ws in
     Printf.sprintf "copies=%d..%d blocks=%d same=1" (n + 1) (n + 1) (2 * ws + 1)
+  | [_; "dirs"; opts] ->
+    (* the configuration the real argv yields (Coq model of Config::new), then: reads are served from the send directory
+       only, an upload lands in the receive directory *)
+    let b = bytes_of_string in
+    let argv = List.concat_map (function
+        | "d" -> [b "-d"; b "/S"] | "rd" -> [b "-rd"; b "/R"] | "sd" -> [b "-sd"; b "/N"] | _ -> []) (String.split_on_char ',' opts) in
+    let ex s = List.mem (string_of_bytes s) ["/S"; "/R"; "/N"] in
+    let pip s = (match string_of_bytes s with "127.0.0.1" -> Some s | _ -> None) in
+    (match parse_args ex pip (b "/S") ([b "tftpd"; b "-i"; b "127.0.0.1"; b "-p"; b "4242"] @ argv) with
+     | COk c ->
+       let served d = if string_of_bytes c.c_sdir = d then "D" else "E1" in
+       let up = (match string_of_bytes c.c_rdir with "/S" -> "srv" | "/R" -> "rcv" | "/N" -> "snd" | _ -> "?") in
+       Printf.sprintf "S:%s,R:%s,N:%s up=%s" (served "/S") (served "/R") (served "/N") up
+     | _ -> "config-rejected")
   | [_; "xfer"; _; _; _; _; _; _] -> "res=0 same=1"   (* C14: interop theorems - every valid choice completes byte-identically *)
   | _ -> failwith "bad bin case"
 
@@ -1261,7 +1279,7 @@ let mon_send prop case impl =
      | "C08" -> verdict v.v_c08
      | "C16" -> verdict (v.v_c16 && (rep = "1" || (v.v_c08 && v.v_c07 && v.v_c01)))
      | "C15" -> if long then verdict (v.v_c01 && v.v_c07 && v.v_c08) else "skip"
-     | "C04" -> "skip"
+     | "C04" -> verdict v.v_c04
      | _ -> "skip")
   | _ -> "fail:unparsable"
 
@@ -1307,6 +1325,12 @@ let run_mon (line : string) : string =
                  (if impl = Printf.sprintf "copies=%d..%d blocks=%d same=1" (int_of_string n + 1) (int_of_string n + 1) (2 * int_of_string ws + 1) then "pass"
                   else "fail:data-blocks-not-emitted-exactly-N+1-times-in-real-time") else "skip"
              | ["bin"; "rt"; _; tmo] -> if prop = "C09" then (if impl = "rt=" ^ tmo then "pass" else "fail:retransmission-interval-differs-from-the-acknowledged-timeout") else "skip"
+             | ["bin"; "dirs"; _] ->
+               if prop = "C03" || prop = "C17" then
+                 (if impl = run_bin (words case) then "pass"
+                  else if prop = "C03" then "fail:reads-or-writes-go-to-a-directory-other-than-the-configured-one"
+                  else "fail:directory-options-do-not-configure-the-served-directories")
+               else "skip"
              | "bin" :: "xfer" :: _ -> if prop = "C14" then (if impl = "res=0 same=1" then "pass" else "fail:binaries-do-not-interoperate-byte-exactly") else "skip"
              | "conc" :: _ -> if prop = "C12" || prop = "C05" then mon_conc prop case impl else "skip"
              | "pair" :: _ -> if prop = "C04" || prop = "C14" || prop = "C16" then mon_pair prop case impl else "skip"
